@@ -206,6 +206,15 @@ Fault gen_store_fault(Rng &r, const FontImage &fi) {
         f.kind = "SETBYTES"; f.a = {4, i64(hdr >> 24), 5, i64((hdr >> 16) & 0xFF), 6, i64((hdr >> 8) & 0xFF), 7, i64(hdr & 0xFF)};
         return f;
     }
+    if (f.tag == "cmap" && t.size() >= 12 && r.chance(1, 4)) {
+        // one kind of subtable made unusable (format field overwritten) while the others stay valid: fonts that are left with
+        // only a format-12 or only a format-4 mapping
+        unsigned n = be16(&t[2]); unsigned want = r.chance(2, 3) ? 4 : 12; static const int bad[] = {0, 2, 6, 13, 0xFF};
+        f.kind = "SETBYTES"; int v = bad[r.below(5)];
+        for (unsigned i = 0; i < n && 4 + 8 * size_t(i) + 8 <= t.size(); ++i) { size_t so = be32(&t[4 + 8 * i + 4]); if (so + 2 <= t.size() && be16(&t[so]) == want) { f.a.push_back(i64(so)); f.a.push_back(v >> 8); f.a.push_back(i64(so + 1)); f.a.push_back(v & 0xFF); } }
+        if (!f.a.empty()) return f;
+        f.kind.clear();
+    }
     if (k < 55) {
         f.kind = r.chance(3, 4) ? "BITROT" : "SETBYTES";
         unsigned n = 1 + (r.chance(1, 3) ? r.below(3) : 0);
